@@ -29,6 +29,17 @@ func scenC03(r *Run, job *Job) {
 	case 2:
 		r.ReorderNum, r.ReorderDen = 1, 2
 	}
+	nExternal := 0
+	for _, x := range exts {
+		if !x.Internal {
+			nExternal++
+		}
+	}
+	if nExternal >= 2 && t.Chance(1, 3) {
+		// the launch loop is descheduled between two launches: an extension launched earlier registers meanwhile
+		site := []string{"createExitedChannel<lambda/rapid.doInitExtensions", "CreateExternalAgent<lambda/rapid.doInitExtensions"}[t.Draw(2)]
+		r.AddHold(site, 2+t.Draw(nExternal-1), 1+t.Draw(4))
+	}
 	w := r.NewWorld(cfg, job.Seed)
 	e := w.NewEngine()
 	e.Bound = 700 * time.Second
